@@ -186,18 +186,21 @@ HasAccept(id) == \E j \in l..Len(TraceLog) : TraceLog[j].ev = "srv.accept" /\ Tr
 TGetSilent(id) ==
   /\ getting[id] /\ sess[id] = "new" /\ l <= Len(TraceLog) /\ HasAccept(id)
   /\ TraceLog[NextAcceptOf(id)].addr = RingGet(id)      \* a placement that does not explain the logged value dies here
-  /\ GetAddr(id, TraceLog[NextAcceptOf(id)].addr)
+  /\ GetAddr(id, AddrFor(id))
   /\ getting' = [getting EXCEPT ![id] = FALSE]
   /\ UNCHANGED <<l, pend, wr, rd, flags>>
 TAcceptKcp ==
   /\ Is("srv.accept") /\ Step
   /\ e.id \in Ids
   /\ IF getting[e.id] /\ sess[e.id] = "new"
-       THEN e.addr = RingGet(e.id) /\ GetAddr(e.id, e.addr) /\ getting' = [getting EXCEPT ![e.id] = FALSE]
-       ELSE sess[e.id] = "est" /\ sessAddr[e.id] = e.addr /\ UNCHANGED <<vars, getting>>
+       THEN e.addr = RingGet(e.id) /\ GetAddr(e.id, AddrFor(e.id)) /\ getting' = [getting EXCEPT ![e.id] = FALSE]
+       ELSE sess[e.id] = "est" /\ sessAddr[e.id] = (IF e.addr = NoAddr THEN "" ELSE e.addr) /\ UNCHANGED <<vars, getting>>
   /\ UNCHANGED <<pend, wr, rd, flags>>
 
-(* app.accept: Accept() returned a connection; its RemoteAddr() is e.addr. *)
+(* app.accept: Accept() returned a connection; its RemoteAddr() is e.addr
+   ("<nil>" when it is a nil net.Addr).  srv.accept logs the RESULT OF THE
+   LOOKUP (NoAddr = not found); the session's address is AddrFor: that result,
+   or "" when nothing was found. *)
 TAccept ==
   /\ Is("app.accept") /\ Step
   /\ e.id \in Ids /\ sess[e.id] = "est"
